@@ -9,7 +9,7 @@ checks, na = [], []
 for p in props:
     pid = p["id"]
     c = claims.get(pid)
-    if not c or c.get("not_applicable"):
+    if not c or c.get("not_applicable") or c.get("text", "").strip() == "in progress":
         na.append({"property_id": pid, "reason": (c or {}).get("reason", "check not built yet; it will be claimed once its Coq model, theorems and correspondence exist (see DESIGN.md section 4)")})
         continue
     checks.append({
@@ -19,7 +19,7 @@ for p in props:
         "evidence_file": "/verif/evidence/%s.json" % pid,
         "replay_cmd_template": "bin/check %s --replay {path}" % pid,
         "engine": "coq-proof+correspondence",
-        "level_claimed": {"category": "proof", "text": c["text"], "design_ref": "DESIGN.md section 4, " + pid},
+        "level_claimed": {"category": c.get("category", "proof"), "text": c["text"], "design_ref": "DESIGN.md section 4, " + pid},
         "level_note": c["note"],
         "technique": c["technique"],
     })
